@@ -609,7 +609,7 @@ Qed.
 
 Lemma regexp_roundtrip : forall v fl, regexp_ok v fl = true -> regexp_parts (regexp_lit v fl) = (v, fl).
 Proof.
-  intros v fl H. unfold regexp_ok in H. apply andb_true_iff in H. destruct H as [_ H].
+  intros v fl H. unfold regexp_ok in H.
   destruct fl as [|c fl].
   - cbn [regexp_lit]. apply regexp_parts_other. apply negb_true_iff. exact H.
   - apply andb_true_iff in H. destruct H as [H _]. apply negb_true_iff in H.
